@@ -424,8 +424,12 @@ def shrink_case(prop, bins, case, reason):
     """greedy shrinking: keep a smaller case while the implementation still violates the monitor"""
     cur = case
     cur_reason = reason
-    if hasattr(prop, "shrink"):
+    t_end = time.time() + 25          # shrinking is a convenience: bounded in time
+    impl0, _, _ = eval_cases(prop, bins, [cur])
+    if hasattr(prop, "shrink") and "HANG" not in impl0[0]:
         for _ in range(200):
+            if time.time() > t_end:
+                break
             cands = list(dict.fromkeys(prop.shrink(cur)))[:400]
             if not cands:
                 break
